@@ -136,6 +136,56 @@ theorem jsonImpliedMembers_ok_nest : ∀ (ks : List String) (js : List Json) (aK
     | _ => rw [hj] at h; simp [errOf] at h
 end
 
+/-! within the limit the two functions agree -/
+mutual
+theorem jsonImplied_within : ∀ (j : Json) (d : Nat), (d + jnest j ≤ max ∨ jnest j = 0) →
+    jsonImplied env max d j = impliedType env j
+  | .null, _, _ | .bool _, _, _ | .num _, _, _ | .str _, _, _ => by simp [jsonImplied, impliedType]
+  | .arr xs, d, h => by
+    have h' : d + (1 + jnestL xs) ≤ max := by
+      rcases h with h | h <;> simp only [jnest] at h <;> omega
+    have hd : ¬ d ≥ max := by omega
+    simp only [jsonImplied, impliedType, hd, if_false]
+    rw [jsonImpliedAll_within xs (d + 1) (Or.inl (by omega))]
+  | .obj ks vs, d, h => by
+    have h' : d + (1 + jnestM ks vs) ≤ max := by
+      rcases h with h | h <;> simp only [jnest] at h <;> omega
+    have hd : ¬ d ≥ max := by omega
+    simp only [jsonImplied, impliedType, hd, if_false]
+    rw [jsonImpliedMembers_within ks vs [] [] (d + 1) (Or.inl (by omega))]
+    try rfl
+theorem jsonImpliedAll_within : ∀ (js : List Json) (d : Nat), (d + jnestL js ≤ max ∨ jnestL js = 0) →
+    jsonImpliedAll env max d js = impliedAll env js
+  | [], _, _ => by simp [jsonImpliedAll, impliedAll]
+  | j :: js, d, h => by
+    have hj : d + jnest j ≤ max ∨ jnest j = 0 := by simp only [jnestL] at h; omega
+    have hjs : d + jnestL js ≤ max ∨ jnestL js = 0 := by simp only [jnestL] at h; omega
+    simp only [jsonImpliedAll, impliedAll]
+    rw [jsonImplied_within j d hj, jsonImpliedAll_within js d hjs]
+    try rfl
+theorem jsonImpliedMembers_within : ∀ (ks : List String) (js : List Json) (aK : List String) (aT : List Ty) (d : Nat),
+    (d + jnestM ks js ≤ max ∨ jnestM ks js = 0) →
+    jsonImpliedMembers env max d ks js aK aT = impliedMembers env ks js aK aT
+  | [], _, _, _, _, _ => by simp [jsonImpliedMembers, impliedMembers]
+  | _ :: _, [], _, _, _, _ => by simp [jsonImpliedMembers, impliedMembers]
+  | k :: ks, j :: js, aK, aT, d, h => by
+    have hj : d + jnest j ≤ max ∨ jnest j = 0 := by simp only [jnestM] at h; omega
+    have hjs : d + jnestM ks js ≤ max ∨ jnestM ks js = 0 := by simp only [jnestM] at h; omega
+    simp only [jsonImpliedMembers, impliedMembers]
+    rw [jsonImplied_within j d hj]
+    cases impliedType env j with
+    | ok t =>
+      simp only
+      cases hl : lookupTy k aK aT with
+      | some ex =>
+        simp only []
+        by_cases he : (!ex.equals t) = true
+        · simp only [he, if_true]
+        · simp only [he]; exact jsonImpliedMembers_within ks js _ _ d hjs
+      | none => simp only []; exact jsonImpliedMembers_within ks js _ _ d hjs
+    | _ => rfl
+end
+
 end
 end D17
 end CtyModel
